@@ -17,10 +17,10 @@ CLAIMED={
  "C05":("exploration","Byzantine peer publishing raw and structure-aware mutated messages on every topic against all five node flavours; panic, hang, allocation and recovery oracles over the running system.","§3 C05"),
  "C06":("exploration","Byzantine peer with generated signer/signature lists against the real Gnosis / service validator chains and the access node; verdict vs the statement's predicate.","§3 C06"),
  "C15":("exploration","Seeded search over block trees, head sequences (forks <= assumed reorg depth), RPC/DB faults and syncer crashes; oracle at every commit that moves the sync position.","§3 C15"),
- "C16":("exploration","One generated chain synced under three batchings by the real MultiEventSyncer; fired rows vs a canonical-chain reference.","§3 C16"),
+ "C16":("exploration","One generated chain (forks, repeated registrations, mid-step branch switch, RPC errors) synced under three batchings by the real MultiEventSyncer; fired rows vs a sequential canonical-chain reference.","§3 C16"),
  "C02":("exploration","Seeded search over block histories, eon states, restarts and faults through the real per-block processing; safety oracle on the trigger channel and on published share messages.","§3 C02"),
  "C19":("exploration","Seeded search over queues, slot triggers, restarts and message interleavings across 2-3 real Gnosis keyper stacks; identity selection vs reference, pointer arithmetic at quiescence.","§3 C19"),
- "C20":("exploration","The real eon-public-key polling service on the fake clock against a generator committing 0-4 keys per tick, both publication modes, refusals, statement errors and restarts.","§3 C20"),
+ "C20":("exploration","The real eon-public-key polling service on the fake clock against a generator committing 0-4 keys per tick, both publication modes, refusals (plain and context-flavoured errors), a busy mechanism, statement errors and restarts.","§3 C20"),
  "C07":("exploration","Seeded search over Byzantine strategies, block contents and round-trip interleavings of a whole DKG run by the real keyper main loops; agreement / threshold-decryption oracle.","§3 C07"),
  "C08":("fault_enumeration","Crash points (database round trips, commits with lost reply, ambiguous broadcasts) of a recorded crash-free DKG run of the real main loop are executed as twins: sampled in the quick tier, all of them in the thorough tier.","§3 C08"),
 }
@@ -31,7 +31,7 @@ NOTES={
  "C02":"safety only (as stated); keyper sets have increasing activation blocks; simeth/pgsim fidelity",
  "C19":"beacon API stubbed (proposer always registered); sequencer contract enforces minimum gas",
  "C15":"canonical chain fixed during one Sync; contracts emit a key once per chain and nothing before the sync start block; pgsim/simeth fidelity",
- "C16":"fault-free; simeth eth_getLogs semantics; reference matcher ref.TrigDef",
+ "C16":"faults: rpc.eth_error (failed steps retried), rpc.eth_reorg_between_calls in the block-by-block batching; repeated registrations of one identity read as latest-wins; one recorded finding (known_findings.json: re-registered trigger forgotten by a reorg rollback); simeth eth_getLogs semantics; reference matcher ref.TrigDef",
  "C05":"process-wide allocation metering with a generous constant; pgsim fidelity",
  "C06":"ECDSA (go-ethereum secp256k1) is a trusted primitive shared with the reference; the signed SSZ roots are computed by the harness's own implementation (sim/ref/sszsig.go)",
  "C01":"message-granularity reading of 'exactly when'; pgsim fidelity (conformance run); trusted-dealer eon keys",
